@@ -1889,6 +1889,28 @@ def sustained_rate_findings(seed, full=False):
                              {'family': fam, 'jump_interval': k, 'pattern': 'RRRRRA', 'iteration': it + 1,
                               'search': 'sustained_rate'}))
                         break
+    # (iii) a reset in the middle of an all-accepted history: the count of the Sivia-Skilling scheme restarts
+    # with the window, so the rate stays 1 > target and no update after the reset may narrow the proposal
+    for fam in (SS_FAMILIES if full else rng.sample(SS_FAMILIES, 2)):
+        ch, prop, model = forcing.make_chain(fam, rng=random.Random(rng.randrange(10 ** 6)), pattern='RRA' * 12 + 'A' * 400,
+                                             jump_interval=1, window=None, seed=rng.randrange(1, 10 ** 6))
+        stats['ss_reset_runs'] = stats.get('ss_reset_runs', 0) + 1
+        for it in range(36):
+            ch.step()
+        ch.reset_proposals()
+        for it in range(36, 36 + (60 if full else 30)):
+            before = _scale_of(prop)
+            ch.step()
+            after = _scale_of(prop)
+            stats['ss_updates_checked'] += 1
+            if numpy.any(after < before * (1 - 1e-12)):
+                findings.setdefault(
+                    'ss-narrows-after-reset-under-acceptance:' + fam,
+                    ('%s: 36 steps with one in three accepted, Chain.reset_proposals(), then every step accepted: the '
+                     'update at iteration %d narrowed the proposal (%r -> %r) although every step since the reset '
+                     'was accepted' % (fam, it + 1, before.tolist(), after.tolist()),
+                     {'family': fam, 'iteration': it + 1, 'search': 'sustained_rate'}))
+                break
     vf = VEITCH_FAMILIES if full else rng.sample(VEITCH_FAMILIES, 3)
     for fam in vf:
         cls, kind, lo, hi = F.FAMILIES[fam]
